@@ -101,6 +101,7 @@ struct ChaosRun : NodeEnv {
         else if (k == "process") { w.process(0); cov.hit("F13-deferred-processing"); }
         else if (k == "api") apiCall(o);
         else if (k == "sendfail") { S().sendFail = (int)o.arg(0) % 6; cov.hit("F5-can-send-failure"); }
+        else if (k == "sendfailat") { S().sendFailAfter = (int)o.arg(0) % 130; S().sendFailRet = o.arg(1) ? 0 : -1; cov.hit("F5-can-send-failure-inside-a-burst"); }   // that many frames pass, the next one is refused (error or 'nothing sent')
         else if (k == "readerr") { if (o.arg(1)) S().readErr = (int)o.arg(0) % 4; else S().readEmpty = (int)o.arg(0) % 4; cov.hit("F6-can-read-error"); }
         else if (k == "nvmfault") { if (o.arg(0)) { S().nvmWriteFaultAt = (int64_t)S().nvmWrites + o.arg(1) % 3; S().nvmWriteShort = (uint32_t)o.arg(2) % 8; cov.hit("F8-nvm-short-write"); } else { S().nvmReadFaultAt = (int64_t)S().nvmReads + o.arg(1) % 3; S().nvmReadShort = (uint32_t)o.arg(2) % 8; cov.hit("F9-nvm-short-read"); } }
         else if (k == "init") { for (auto &b : cbuf) { free(b); b = nullptr; } appTimers.clear(); boot(false); cov.hit("F10-power-cycle"); if (o.arg(0)) { w.cur = 0; CONodeStart(N()); } }
@@ -177,6 +178,12 @@ Plan gen_chaos(Rng &r, bool thorough) {
             p.ops.push_back(Op("sess", {6, 0, 0, r.pick<int64_t>({126, 127, 127, 128})}));
             Frame f; f.dlc = 8; f.d[0] = up ? r.pick<uint8_t>({0xA2, 0xA2, 0xA1, 0xA3}) : r.pick<uint8_t>({0xC1, 0xC5, 0xDD, 0xD9, 0x81, 0x7F, 0xFF}); f.d[1] = r.pick<uint8_t>({0, 1, 2, 63, 126, 127, 128}); f.d[2] = r.pick<uint8_t>({127, 1, 0, 64});
             o = Op("rx", {(int64_t)(0x600u + nid), 8, 1}, std::vector<uint8_t>(f.d, f.d + 8)); }
+        else if (c < 36 && r.chance(1, 3)) { // block upload whose burst loses a frame to the driver, then acknowledges from the protocol's corner cases
+            p.ops.push_back(Op("sess", {0, (int64_t)r.range(14, 16), (int64_t)(1 | 2 << 1 | (r.below(2) << 3)), r.pick<int64_t>({8, 15, 50, 889, 895, 1777})}));
+            p.ops.push_back(Op("sendfailat", {r.chance(2, 3) ? r.range(0, 5) : r.range(0, 126), (int64_t)r.below(2)}));
+            p.ops.push_back(Op("rx", {(int64_t)(0x600u + nid), 8, 1}, {0xA3, 0, 0, 0, 0, 0, 0, 0}));
+            p.ops.push_back(Op("rx", {(int64_t)(0x600u + nid), 8, 1}, {0xA2, r.pick<uint8_t>({0, 0, 1, 2, 5, 127}), r.pick<uint8_t>({127, 2, 1, 64}), 0, 0, 0, 0, 0}));
+            o = Op("rx", {(int64_t)(0x600u + nid), 8, 1}, {0xA2, r.pick<uint8_t>({0, 1, 2, 127}), r.pick<uint8_t>({127, 1, 7}), 0, 0, 0, 0, 0}); }
         else if (c < 36) { o = Op("sess", {6, 0, 0, r.pick<int64_t>({1, 5, 125, 126, 127, 128, 129, 199})}); }
         else if (c < 37 && r.chance(1, 2)) { // a complete small segmented or block download / block upload to a communication-profile entry, on either server: the typed objects get the transfer buffer, not the frame
             uint16_t ix = cfgIdx[r.below(sizeof cfgIdx / 2)]; uint8_t sub = (uint8_t)r.below(6); uint32_t size = r.pick<uint32_t>({4, 4, 4, 2, 1}); int64_t id = (int64_t)(0x600u + nid + (r.chance(1, 2) ? 0x40 : 0));
